@@ -71,16 +71,20 @@ def positioned_nodes(tree):
 def classify_program(stored, raw):
     """Narrow signatures of the known findings, from the (minimised) failing program."""
     lines = raw.split("\n")
-    if "_pos=" in stored:  # tested first: the decorated-async-def finding is repaired (d0d94f6), this one is open
-        return SIG_POSSTR
-    if re.search(r"(?m)^\s*@.*\bfor\b.+\bin\b", stored):
-        return SIG_DECOSCOPE
+    # the open finding first, then the repaired ones (a fixed entry suppresses nothing, but a harmless feature of a
+    # repaired finding must not mask the open one)
     for m in re.finditer(r"(?i)#\s*paroxython\s*:\s*(.*)", raw):
         for tok in m.group(1).split():
             if not tok.startswith(("-", "...", "…")) and tok.lstrip("+").split(":")[0].rstrip(".…") in PREREQ:
                 return SIG_HINTPATH
-    if re.search(r"(?m)^\s*@.*\n\s*async\s+def\b", stored):  # repaired (d0d94f6): tested last, the open findings first
+    if re.search(r"(?m)^\s*@.*\bfor\b.+\bin\b", stored):  # repaired (8ca25b9)
+        return SIG_DECOSCOPE
+    if any(0x1C <= ord(ch) <= 0x1F for ch in raw):  # repaired (80f9da8)
+        return SIG_FS
+    if re.search(r"(?m)^\s*@.*\n\s*async\s+def\b", stored):  # repaired (d0d94f6)
         return SIG_ASYNC
+    if "_pos=" in stored:  # repaired (b1d74a8)
+        return SIG_POSSTR
     return None
 
 
@@ -101,7 +105,7 @@ def stream_hint_spans(ctx, impl, drv):
     for _ in range(n):
         rng = ctx.rng
         base = [rng.choice(H.CODE) for _ in range(rng.randint(1, 5))]
-        layout = H.gen_decorated(rng, base, labels=H.LABELS[:8])
+        layout = H.gen_decorated(rng, base, labels=H.LABELS[:8] + ["été", "变量", "λ"])
         lead, trail = rng.choice([0, 0, 0, 1, 2]), rng.choice([0, 0, 0, 1, 2])
         spec = drv.call("c12.spec_decorate", lines=layout)
         blank = lambda: rng.choice(["", "", " ", "\t", "   "])  # noqa: E731
@@ -307,7 +311,7 @@ def gen_program(rng, real_programs):
     if nb and rng.random() < 0.6:
         for _ in range(rng.randint(1, 3)):
             k = rng.random()
-            L = rng.choice(["foo", "meta/topic/fun", "flow/conditional", "bar:baz", "bar:baz", "foo",
+            L = rng.choice(["foo", "meta/topic/fun", "flow/conditional", "bar:baz", "bar:baz", "foo", "été", "变量", "λ:x",
                             rng.choice(["function:g", "loop:for", "if", "scope:v"])])
             if k < 0.5:
                 i = rng.choice(nb)
@@ -486,10 +490,135 @@ def stream_tag_collect(ctx, impl, drv, real_programs):
     ctx.cov["crashes_seen_not_judged_here"] = {f"{k[0]}:{k[1]}": min(v, key=len)[:300] for k, v in crashes.items()}
 
 
+# ---------------------------------------------------------------------------------- layout twins
+
+# Statements with several physical layouts of the SAME syntax tree (line breaks inside brackets, backslash
+# continuations); `{i}` is replaced by a small integer to vary the programs.
+TWIN_STMTS = [
+    ['print("hello", "world{i}")', 'print(\n    "hello",\n    "world{i}",\n)', 'print("hello",\n      "world{i}")'],
+    ["t{i} = [1, 2, 3]", "t{i} = [\n    1,\n    2,\n    3,\n]", "t{i} = [1,\n      2, 3]"],
+    ["x{i} = a + b * 2", "x{i} = (a +\n      b * 2)", "x{i} = a + \\\n    b * 2", "x{i} = (\n    a\n    + b * 2\n)"],
+    ["def f{i}(a, b=1):\n    return a + b", "def f{i}(\n    a,\n    b=1,\n):\n    return a + b",
+     "def f{i}(a,\n       b=1):\n    return (a +\n            b)"],
+    ["d{i} = {'k': 1, 'v': [2, 3]}", "d{i} = {\n    'k': 1,\n    'v': [\n        2,\n        3,\n    ],\n}"],
+    ["for i in range(3):\n    s = f{i}(i, i)", "for i in range(\n    3\n):\n    s = f{i}(\n        i,\n        i,\n    )"],
+    ["if a and b:\n    y = 1\nelse:\n    y = 2", "if (a and\n        b):\n    y = 1\nelse:\n    y = 2",
+     "if a \\\n        and b:\n    y = 1\nelse:\n    y = 2"],
+    ["z = [q * q for q in t if q % 2]", "z = [\n    q * q\n    for q in t\n    if q % 2\n]"],
+    ["import os", "import os"], ["y = 0", "y = 0"],
+]
+
+
+def gen_twins(rng, strategy):
+    """2-4 files holding the same program (same syntax tree, same hints) with different physical layouts."""
+    k = rng.randint(1, 4)
+    stmts = [rng.choice(TWIN_STMTS) for _ in range(k)]
+    nums = [rng.randint(0, 9) for _ in range(k)]
+    hint = rng.choice([None, None, (rng.randrange(k), rng.choice(["foo", "-node:Name", "flow/conditional"]))])
+    n = rng.randint(2, 4)
+    texts = []
+    for t in range(n):
+        parts = []
+        for j, (alts, i) in enumerate(zip(stmts, nums)):
+            # the first twin takes the longest layout half of the time: the memo, if any, is then filled by a long or a short one
+            alt = rng.choice(alts) if t or rng.random() < 0.5 else max(alts, key=lambda a: a.count("\n"))
+            text = alt.replace("{i}", str(i))
+            if hint and hint[0] == j:  # the same hint on the first line of the statement in every twin
+                lines = text.split("\n")
+                if not lines[0].rstrip().endswith("\\"):
+                    lines[0] += " # paroxython: " + hint[1]
+                    text = "\n".join(lines)
+            if strategy == "none":  # blank lines and comments only survive without cleaning
+                if rng.random() < 0.4:
+                    parts.append(rng.choice(["", "# a comment", "\n", "# c\n"]))
+            parts.append(text)
+        texts.append("\n".join(parts) + rng.choice(["\n", "\n", ""]))
+    if len(set(texts)) < 2:
+        return None
+    names = [f"twin_{chr(97 + i)}.py" for i in range(n)]
+    if rng.random() < 0.5:  # both sort orders: the longest layout first or last
+        names.reverse()
+    return dict(zip(names, texts))
+
+
+def collect_dir(impl, root, name, files, strategy):
+    from paroxython.make_db import TagDatabase
+
+    d = root / name
+    d.mkdir()
+    for fn, text in files.items():
+        (d / fn).write_text(text, encoding="utf-8")
+    try:
+        db = H.quiet(TagDatabase, d, ignore_timestamps=True, cleanup_strategy=strategy)
+        out = {path: {"source": info["source"],
+                      "labels": {nm: [[x[0], x[1]] for x in sp] for nm, sp in info["labels"].items()},
+                      "taxa": {nm: [[x[0], x[1]] for x in sp] for nm, sp in info["taxa"].items()}}
+               for path, info in db.programs_infos.items()}
+    except Exception as e:  # noqa
+        out = {"exc": type(e).__name__}
+    shutil.rmtree(d, ignore_errors=True)
+    return out
+
+
+def stream_layout_twins(ctx, impl, drv):
+    """Directories of programs that differ only by their physical layout: every stored span must be a valid line
+    range of THAT program's stored source, and must be what the program gets when it is collected alone."""
+    n = 40 if ctx.tier == "quick" else 400
+    root = ctx.scratch_dir()
+    done = 0
+    k = 0
+    reported = 0
+    found = []
+    while done < n and k < 5 * n:
+        k += 1
+        strategy = ("full", "none")[k % 2]
+        files = gen_twins(ctx.rng, strategy)
+        if files is None:
+            continue
+        together = collect_dir(impl, root, f"twins-{k}", files, strategy)
+        if "exc" in together:
+            ctx.dist(f"twins:collect-exception:{together['exc']}")
+            continue
+        done += 1
+        ctx.dist(f"twins:{strategy}:files={len(files)}")
+        for path, info in together.items():
+            ctx.count(f"twins:{strategy}", (strategy, files[path]), nontrivial=True)
+            bad = None
+            if info["source"]:
+                named = [(nm, sp) for kind in ("labels", "taxa") for nm, sps in info[kind].items() for sp in sps]
+                ok = drv.call("c02.spec_valid", listing=info["source"], spans=[sp for _, sp in named])
+                ctx.count(f"twins:{strategy}:spans", None, n=len(named))
+                inv = [(nm, sp) for (nm, sp), b in zip(named, ok["r"]) if b == "0"]
+                if inv:
+                    bad = {"invalid": inv[:6], "nlines": ok["nlines"]}
+            alone = None
+            if bad is None and (ctx.tier != "quick" or done % 2 == 0):
+                alone = collect_dir(impl, root, f"alone-{k}-{path[:-3]}", {path: files[path]}, strategy)
+                if "exc" not in alone and alone.get(path) != info:
+                    a = alone[path]
+                    diff = [[kind, nm, info[kind].get(nm), a[kind].get(nm)] for kind in ("labels", "taxa")
+                            for nm in sorted(set(info[kind]) | set(a[kind])) if info[kind].get(nm) != a[kind].get(nm)]
+                    bad = {"differs_from_alone": diff[:6], "nlines": len(info["source"].split("\n"))}
+            if bad is not None and reported < 12:
+                reported += 1
+                found.append({
+                    "what": "in a directory of programs that differ only by their layout, a program is stored with spans that "
+                            "are not valid line ranges of its own stored source (or not those it gets when collected alone)",
+                    "signature": None,
+                    "replay": {"kind": "layout-twins", "directory": files, "cleanup_strategy": strategy, "program": path,
+                               "stored": info["source"], "impl": bad,
+                               "spec": "1 <= start <= end <= nlines of the program's own stored source; same spans as alone",
+                               "how": "TagDatabase(directory, ignore_timestamps=True, cleanup_strategy=...)"},
+                })
+    # the out-of-range spans (C02 proper) first, then the differences with the program collected alone
+    found.sort(key=lambda v: ("invalid" not in v["replay"]["impl"], len(json.dumps(v["replay"]["directory"]))))
+    ctx.violations.extend(found[:2])
+
+
 def run(ctx):
     core.prove(ctx)
     impl = H.Impl()
-    drv = core.Driver()
+    drv = H.OracleDriver(impl)
     import time
     walls = ctx.cov.setdefault("stream_wall_s", {"prove": round(ctx.elapsed(), 1)})
     try:
@@ -498,6 +627,7 @@ def run(ctx):
                         ("error-span", lambda: stream_error_span(ctx, impl, drv)),
                         ("bindings", lambda: stream_bindings(ctx, impl, drv)),
                         ("tag-collect", lambda: stream_tag_collect(ctx, impl, drv, real)),
+                        ("layout-twins", lambda: stream_layout_twins(ctx, impl, drv)),
                         ("tree-model", lambda: __import__("harness.c02_tree", fromlist=["stream"]).stream(ctx, drv))]:
             t = time.time()
             f()
@@ -529,8 +659,8 @@ def run(ctx):
     ctx.cov["exercised_only"] = [
         "spans of the 171 other regex features and of the SQL-derived labels/taxa are ordered in-range lines",
         "CPython line numbers lie within the text",
-        "that the two captures of whole_span are the first and the last positioned node of the dump (checked on every real "
-        "tree by harness/c02_tree.py; C02_whole_span / C02_meta_program_once are about the matcher and pos_to_span)",
+        "that the real regex engine behaves as the hand matchers of `node` / `whole_span` (validated on every run); the "
+        "theorems C02_node_*, C02_whole_span_exists, C02_meta_program_exactly_once are about these matchers on the tree model",
     ]
     known = {k.get("signature") for k in core.load_known() if k.get("property") == ctx.pid and k.get("status") == "finding"}
     unknown = [v for v in ctx.violations if v.get("signature") is None or v.get("signature") not in known]
@@ -548,7 +678,7 @@ def run(ctx):
 def replay(ctx, path):
     obj = json.loads(Path(path).read_text(encoding="utf-8"))
     impl = H.Impl()
-    drv = core.Driver()
+    drv = H.OracleDriver(impl)
     try:
         src = obj.get("src")
         if src is None:
